@@ -2,7 +2,7 @@
    This file contains only property theorems, each closed by `exact <lemma>` and followed by
    Print Assumptions.  Statements not (yet) proved are kept visible as Definitions C07_full_*. *)
 From SV Require Import Model.Rows Model.SplitArray Model.Chunk Model.Rechunker
-     Model.Merge Proof.SplitArrayProof Proof.ChunkProof Proof.RechunkerProof Proof.MergeProof Proof.ConcatProof.
+     Model.Merge Proof.SplitArrayProof Proof.ChunkProof Proof.RechunkerProof Proof.RechunkerStrong Proof.MergeProof Proof.ConcatProof.
 
 (* split_array: refuses exactly when a row straddles; with early splitting returns the latest
    admissible earlier time; every row entirely on one side; rows preserved in order *)
@@ -37,6 +37,18 @@ Theorem C07_rechunk_stream_spec : forall cs,
     chain (stream_start cs) out (stream_end cs).
 Proof. exact rechunk_stream_correct. Qed.
 Print Assumptions C07_rechunk_stream_spec.
+
+(* ... data type and run id are preserved and every interior cut lies strictly inside a row-free gap of
+   the whole stream (so output boundaries are the stream's ends or fall in gaps) *)
+Theorem C07_rechunk_stream_strong : forall cs,
+  valid_stream cs ->
+  exists body lst, rechunk_stream cs = Ok (body ++ [lst]) /\ Forall wf (body ++ [lst]) /\
+    flat_map crows (body ++ [lst]) = flat_map crows cs /\
+    chain (stream_start cs) (body ++ [lst]) (stream_end cs) /\
+    Forall (meta_eq (hd lst cs)) (body ++ [lst]) /\
+    Forall (cut_in (stream_start cs) (stream_end cs) (flat_map crows cs)) body.
+Proof. exact rechunk_stream_correct_strong. Qed.
+Print Assumptions C07_rechunk_stream_strong.
 
 (* ... and it cuts only where no row is straddled *)
 Theorem C07_cuts_straddle_nothing : forall out s e,
